@@ -15,7 +15,7 @@ pub struct C15;
 const NS_QUICK: &[usize] = &[1, 2, 3, 4, 5, 6, 7, 8, 9, 16, 33, 64];
 
 fn ma_for(r: &mut Rng) -> Spec {
-    let k = *r.pick(crate::spec::MAS);
+    let k = crate::gen::pick_ma_kind(r);
     let n = r.range(1, 6);
     let mut m = Spec::un(k, n, Spec::echo());
     gen_params(r, &mut m, false);
@@ -88,7 +88,7 @@ impl Prop for C15 {
     fn generate(&self, i: u64, r: &mut Rng, tier: Tier) -> Scenario {
         let (tree, shape) = self.topology(i, r, tier);
         let mut sc = Scenario::new("C15", "calls");
-        let positive = tree.needs_positive_feed();
+        let sign = pick_feed_sign(r, std::slice::from_ref(&tree));
         let shape = shape.unwrap_or_else(|| r.below(SHAPES.len()) as u8);
         // magnitudes {0} u [1e-3, 1e6]
         let scale = *r.pick(SCALES) / 4.25;
@@ -101,7 +101,7 @@ impl Prop for C15 {
                 _ => r.range(121, 600),
             }
         };
-        let vals = gen_shape(r, shape, len, scale, positive);
+        let vals = crate::feed::gen_signed(r, shape, len, scale, sign);
         let p_obs = *r.pick(&[0.0, 0.1, 0.5]);
         let early = r.chance(0.5);
         let mut ev = single_schedule(r, &vals, p_obs, early);
